@@ -699,6 +699,11 @@ impl Scenario for VaultScen {
             }
             3 => Op::Collect,
             4 if rng.chance(1, 4) => Op::SetCollector { second: rng.chance(1, 2) },
+            4 if rng.chance(1, 3) => {
+                // re-split the same total between the three fees
+                let c = &self.cfg.fees;
+                Op::SetFees { fees: if rng.chance(1, 2) { [c[1].clone(), c[2].clone(), c[0].clone()] } else { [c[2].clone(), c[0].clone(), c[1].clone()] } }
+            }
             4 => Op::SetFees { fees: gen_fees(rng) },
             5 => Op::Donate { amount: rng.edge_amount(ubal / 4).max(1) },
             _ => Op::DepositWithdraw { amount: rng.edge_amount(ubal / 2).max(1) },
